@@ -308,6 +308,16 @@ def run_c09(spec: Dict[str, Any]) -> "tuple[List[Violation], Dict[str, Any]]":
                             kind = "requeue-breaks-typed-labels"
                         v.append(Violation(kind, f"send {si['i']} delivery {j} (after {after}): {where} labels {jsonable(user_labels(g[where]))} != sent {jsonable(expect)}"))
                         break
+            for j, g in enumerate(got):
+                # the retry counter of a result is the one the message arrived with: what the retry middleware adds for
+                # the re-send belongs to the *next* delivery (requeue() counts on the received message itself before it
+                # ends the execution without a result, so its counter is not compared)
+                if "pre" in g and "post_result" in g:
+                    b0 = {k: g["pre"].get(k) for k in ("_retries",) if k in g["pre"]}
+                    b1 = {k: g["post_result"].get(k) for k in ("_retries",) if k in g["post_result"]}
+                    if b0 != b1:
+                        v.append(Violation("result-carries-labels-of-next-delivery", f"send {si['i']} delivery {j}: the message arrived with {b0}, its result carries {b1}"))
+                        break
             done_acts = [g.get("act") for g in got]
             if done_acts != want_acts:
                 # which step was lost / went wrong?
